@@ -312,6 +312,8 @@ PROPS["C11"] = dict(
                  "a displaced session lingering until its next keep-alive exchange (allowed by C12) is exempt from the subscription-belongs-to-a-listed-session invariant until it has ended",
                  "node failure = NotifyGossipLeave on the survivors; the check waits (real time, up to 15 s) for the delayed record cleanup"],
     runs=[
+        # late and repeated QoS 2 packets (PUBREL after the broker gave up, PUBREL / PUBCOMP twice, stray PUBACK / PUBREC) do not end a session
+        dict(name="lateqos2", pkg="c11", run="TestLateQoS2Packets", checks=dict(quick=96, thorough=1600), shards=8, timeout=dict(quick=400, thorough=2400), shrinktime="60s"),
         # an announcement that arrives after the removal on a filter that 0-300 (thorough 1100) other sessions have used and left since
         dict(name="late", pkg="c11", run="TestLateAnnouncement", shards=4, timeout=600),
         dict(name="regress", pkg="c11", run="TestRegress", timeout=300),
@@ -667,9 +669,9 @@ PROPS["C20"] = dict(
 
 # Later additions to the checks (rounds 7 and 8), appended to the manifest text of the property
 ADDITIONS = {
-    "C01": "Run unsuback: at the very moment a session has received its UNSUBACK (hook on the fake connection) another client publishes and is acknowledged: the publish is not delivered to the session that left (unless a remaining filter matches) and is delivered to a session still subscribed.",
+    "C01": "Run unsuback: at the very moment a session has received its UNSUBACK (hook on the fake connection) another client publishes and is acknowledged: the publish is not delivered to the session that left (unless a remaining filter matches) and is delivered to a session still subscribed. Sets: filters and topics below a common prefix of 14…260 levels.",
     "C13": "Run silent: the dying session sends the first 1..n-1 bytes of a PUBLISH, SUBSCRIBE or UNSUBSCRIBE and then nothing, without closing; when its keep-alive allowance has passed (virtual clock) the connection is closed, the will reaches the watchers on 1-2 nodes exactly once (retained if asked), and nothing of the unfinished packet has any effect. Generator: 1-3 further sessions on the dying session's node with byte-identical wills (each session's will is its own).",
-    "C14": "Run panic (package c05): a destination whose write panics; the unchanged broker dies (nothing acknowledged), a survivor must not acknowledge.",
+    "C14": "Run panic (package c05): a destination whose write panics; the unchanged broker dies (nothing acknowledged), a survivor must not acknowledge. The judged publishes also carry the RETAIN flag and zero-length payloads.",
     "C02": "Run suback: a publish from another connection sent, and acknowledged, at the very moment the subscriber has received its SUBACK (hook on the fake connection) must reach that subscriber (1-3 filters, 0-60 retained messages replayed in between, QoS 1/2).",
     "C03": "Run ackatreceipt: 1-3 subscribers answer every PUBLISH / PUBREL the instant they hold it, from a hook that runs before the broker's write of that packet returns (and waits until the broker has consumed the answer); when afterwards every deadline passes twice nothing is sent again, every message was received once and all 65535 identifiers are free.",
     "C04": "Run overlap: 1728 enumerated scenarios of a second sweep that overlaps the callbacks of a running one (from another goroutine or from inside a callback) with an entry registered in between; the second sweep must expire it.",
@@ -678,6 +680,7 @@ ADDITIONS = {
     "C08": "Run volume: 70 000 / 300 000 changes of each kind made on three origins, delivered in order, reversed and shuffled (batches, duplicates) to three replicas that must all list what the reference table lists.",
     "C09": "Run fingerprints: among 200 000 / 1 500 000 real broadcasts, pairs of different messages that agree under one of 12 32-bit fingerprints (CRC-32 x3, FNV, Adler, truncated MD5/SHA-1/SHA-256, ...) are found by birthday search and delivered to a fresh receiver adjacent, reversed, with duplicates and 300 messages apart; the receiver must list what the reference table of the decoded messages lists. Run bulk: bulk removals of every size 1..130 (thorough 600) - a session's subscriptions, a failed peer's sessions and subscriptions - origin vs. mirror. Run volume (package c08): 70 000 changes of each kind.",
     "C10": "Run sizes: every snapshot size from 1 to 1100 (thorough 4200) sessions, twice as many subscriptions, half as many retained messages (with removals), merged by a fresh node and by a node that lives on snapshots alone. Run big: one snapshot of 70 000 / 300 000 entries of each kind.",
+    "C11": "Run lateqos2: generated sequences of held QoS 2 publishes, sweeps of the in-flight table, late PUBREL, repeated PUBREL / PUBCOMP, stray PUBACK / PUBREC: none of them is a cause for ending a session - the connection stays open, PINGREQ is answered, session and subscription stay listed.",
     "C12": "Run simultaneous: 2-24 connections presenting one identifier at the same moment on a node knowing 0 / 2000 / 20000 sessions: all are established; after each has pinged exactly one is served, the one the identifier resolves to. Run connack: at the very moment the new connection has received its CONNACK the earlier session sends a PINGREQ: it is not answered and that connection is closed; the identifier resolves to the new session, whose own PINGREQ is answered (chains of 1-4 takeovers).",
     "C15": "Run longlogs: logs growing past 10 000 (thorough 100 000) entries with the consumer killed before, at and after the boundary while a backlog is ahead of it, then restarted.",
     "C16": "File entries whose password column is empty or a truncated digest (disabled accounts): they match no password.",
